@@ -262,6 +262,7 @@ def check_dataset(path, df, spec, o, fm):
         if exp_opt is not None and bool(l["maxdef"]) != exp_opt:
             res["problems"].append(("nullability", "column %s: has_nulls=%r but the schema says %s" % (
                 l["name"], hn, "OPTIONAL" if l["maxdef"] else "REQUIRED")))
+        res["problems"] += [("annotation", p) for p in fmtlib.annotation_problems(s, l, o["times"])]
         exp = fmtlib.expected_cells(s.reset_index(drop=True), l)
         res["problems"] += [("decode", p) for p in fmtlib.compare_column(exp, cols[l["name"]], l["type"], "column %s" % l["name"])]
         if len(res["problems"]) > 6:
@@ -318,9 +319,19 @@ def _job(job):
         shutil.rmtree(tmp, ignore_errors=True)
 
 
+ZONES = ["UTC", "Europe/Berlin", "Asia/Kolkata", "America/New_York"]
+
+
+def _zones(rng, spec):
+    for c in spec["cols"]:
+        if c["kind"].startswith("dttz"):
+            c["tz"] = rng.choice(ZONES)
+    return spec
+
+
 def _one(rng, kind, n):
     from harness import rt
-    spec = F.gen_spec(rng, n=n, ncols=1, kinds=[kind], index=(rng.random() < 0.15))
+    spec = _zones(rng, F.gen_spec(rng, n=n, ncols=1, kinds=[kind], index=(rng.random() < 0.15)))
     o = rt.gen_opts(rng, spec)
     o["file_scheme"] = rng.choice(["simple", "simple", "hive", "drill"])
     if n > 300:
@@ -352,6 +363,20 @@ def gen_jobs(ctx):
     for fn in sorted(glob.glob(os.path.join(C.VERIF, "corpus", "C02", "*.json"))):      # minimised past failures first
         c = json.load(open(fn))
         jobs.append((c["spec"], c["opts"]))
+    # deterministic block (identical on every run): every dtype kind with default options, and every timezone-aware /
+    # naive datetime unit in several zones and both `times` modes - the annotations of the schema are compared for each
+    base = {"compression": None, "row_group_offsets": None, "has_nulls": True, "page_size": None, "dpv": 1, "stats": True,
+            "times": "int64", "object_encoding": "infer", "file_scheme": "simple", "write_index": None}
+    for k in F.KINDS:
+        tzs = ZONES if k.startswith("dttz") else [None]
+        for tz in tzs:
+            for times in (["int64", "int96"] if k.startswith("dt") else ["int64"]):
+                cs = {"name": "c0_%s" % k, "kind": k, "nulls": "some", "seed": 12345}
+                if tz:
+                    cs["tz"] = tz
+                if k.startswith("cat_"):
+                    cs["ncat"] = 5
+                jobs.append(({"n": 9, "cols": [cs], "index": None}, dict(base, times=times, dpv=1 if tz != "UTC" else 2)))
     sizes_small = [0, 1, 2, 7, 8, 9, 63, 64, 65, 127, 128, 129]
     sizes_big = [255, 256, 257, 8191, 8192, 8193]
     if ctx.quick():
@@ -364,7 +389,7 @@ def gen_jobs(ctx):
                 for _ in range(3):
                     jobs.append(_one(rng, k, n))
     for _ in range(500 if ctx.quick() else 6000):
-        spec = F.gen_spec(rng, n=rng.choice(sizes_small + ([257, 8193] if rng.random() < 0.1 else [])))
+        spec = _zones(rng, F.gen_spec(rng, n=rng.choice(sizes_small + ([257, 8193] if rng.random() < 0.1 else []))))
         o = rt.gen_opts(rng, spec)
         o["file_scheme"] = rng.choice(["simple", "simple", "hive", "drill"])
         jobs.append((spec, _maybe_partition(rng, spec, _cap_row_groups(spec, o))))
